@@ -69,8 +69,20 @@ def regen(log):
                 pass
             if rc != 0 or not st:
                 res.append(("go2lean:build", False, out))
-            for fn, msg in sorted(st.items()):
-                res.append((f"go2lean:{fn}", msg == "ok", msg))
+            # safety net: the regenerated file must compile, otherwise every driver that imports it (and so
+            # zmodel and every check) would go down with it; fall back to the last version that compiled
+            good = target + ".good"
+            rcb, outb = sh(["lake", "build", "Zrnt.Gen.GoFuns"], cwd=LEAN, timeout=900)
+            if rcb == 0:
+                subprocess.run(["cp", target, good])
+                for fn, msg in sorted(st.items()):
+                    res.append((f"go2lean:{fn}", msg == "ok", msg))
+            else:
+                if os.path.exists(good):
+                    subprocess.run(["cp", good, target])
+                    sh(["lake", "build", "Zrnt.Gen.GoFuns"], cwd=LEAN, timeout=900)
+                for fn in sorted(st):
+                    res.append((f"go2lean:{fn}", False, "regenerated GoFuns.lean does not compile: " + outb[-800:]))
         else:
             rc, out = sh([os.path.join(BUILD, name), REPO, os.path.join(LEAN, "Zrnt/Gen")])
             seen = False
